@@ -165,6 +165,16 @@ def receivers(cls, name):
                 R.append(lambda qc=qc: upd(qc))
                 R.append(lambda qc=qc: dele(qc))
                 R.append(lambda qc=qc: ins(qc, True))
+                if qc is PostgreSQLQuery:
+                    # the clauses only the PostgreSQL builder has, holding columns of the replaced table where they are printed qualified
+                    def pgret(qc=qc):
+                        t0 = T_("t", alias="ta")
+                        return qc.update(t0).set(t0.a, 1).where(t0.b == 2).returning(t0.c, (t0.d + 1).as_("r"))
+                    def pgdist(qc=qc):
+                        t0 = T_("t", alias="ta")
+                        return qc.from_(t0).join(T_("u")).on(t0.a == T_("u").a).select(t0.a).distinct_on(t0.b, T_("u").c)
+                    R.append(pgret)
+                    R.append(pgdist)
             if name in ("columns", "insert", "replace", "on_conflict", "do_update", "do_nothing", "where", "returning", "select", "from_"):
                 R.append(lambda qc=qc: ins(qc))
                 R.append(lambda qc=qc: ins(qc, True))
@@ -238,6 +248,28 @@ def receivers(cls, name):
 
 # ---------------------------------------------------------------------------------------------
 # arguments (k = 0,1,2 gives three different argument sets; fresh objects each time)
+
+def extra_args(cls, name, recv):
+    """further (call, argument objects) variants for the methods that take row sources: explicitly aliased arguments of every kind"""
+    out = []
+    if not isinstance(recv, Q.QueryBuilder):
+        return out
+    def mk_sources():
+        a, b = T_("pa"), T_("pb")
+        return [(P.Query.from_(a).select("x") + P.Query.from_(b).select("x")).as_("people"),          # an aliased set operation
+                P.Query.from_(a).select("x").union(P.Query.from_(b).select("x")).as_("sq0"),            # ... whose alias looks automatic
+                P.Query.from_(a).select("x").as_("mine"), P.AliasedQuery("cte_x"), T_("pc", alias="pcx")]
+    if name == "from_":
+        for src in mk_sources():
+            out.append(((lambda r, src=src: r.from_(src)), [src]))
+    if name == "join":
+        for src in mk_sources():
+            def f(r, src=src):
+                base = r._from[0] if r._from else (r._update_table or src)
+                return r.join(src).on(T.Field("a", table=base) == T.Field("x", table=src))
+            out.append((f, [src]))
+    return out
+
 
 def args_for(cls, name, recv, k):
     """Returns (callable taking the receiver and performing the call, list of argument objects)."""
